@@ -194,6 +194,9 @@ func allTypedHelpers() {
 	typedHelpers(spell.Complex)
 	typedHelpers(spell.Pointers)
 	typedHelpers(spell.Int8)
+	typedHelpers(spell.Stringers)
+	typedHelpers(spell.Errors)
+	typedHelpers(spell.Chans)
 	typedHelpers(spell.AnyAlike)
 	typedHelpers(spell.StringAlike)
 	typedHelpers(spell.FloatAlike)
